@@ -78,6 +78,19 @@ type Host struct {
 	// noForeign: this chain was started from an exported genesis by a binary that does not contain the foreign module
 	// (nothing registers its callbacks): its contexts are still there, paused, and nobody may drive them
 	noForeign bool
+	// what the harness's module service answered since the last step (input, result, output)
+	modReplies []ModReply
+}
+
+// ModReply is one answer of the harness's "oracle" module service.
+type ModReply struct {
+	Input, Result, Output string
+}
+
+func (h *Host) takeModReplies() []ModReply {
+	r := h.modReplies
+	h.modReplies = nil
+	return r
 }
 
 func newApp(db dbm.DB, multiToken ...bool) *simapp.SimApp {
@@ -137,17 +150,22 @@ func (h *Host) registerRest() {
 			ReuquestService: func(ctx sdk.Context, input string) (string, string) {
 				// what the module answers is a function of the request alone (and, in multi-token runs, of the rate table):
 				// a caller may ask for a malformed or a refusing answer
-				switch {
-				case indexOf(input, `"mode":"bad"`) >= 0:
-					return `{"code":200,"message":""}`, `{"body":{"rate":"1.0"}}` // no header: fails the output schema
-				case indexOf(input, `"mode":"err"`) >= 0:
-					return `{"code":500,"message":"refused"}`, ""
-				}
-				if h.cfg.MultiToken {
-					h.rateAsked++
-					return rateReply(h.rates, input)
-				}
-				return `{"code":200,"message":""}`, `{"header":{},"body":{"rate":"1.0"}}`
+				res, out := func() (string, string) {
+					switch {
+					case indexOf(input, `"mode":"bad"`) >= 0:
+						return `{"code":200,"message":""}`, `{"body":{"rate":"1.0"}}` // no header: fails the output schema
+					case indexOf(input, `"mode":"err"`) >= 0:
+						return `{"code":500,"message":"refused"}`, ""
+					}
+					if h.cfg.MultiToken {
+						h.rateAsked++
+						return rateReply(h.rates, input)
+					}
+					return `{"code":200,"message":""}`, `{"header":{},"body":{"rate":"1.0"}}`
+				}()
+				// the module knows what it answered: recorded for the oracles (never read back from the service module)
+				h.modReplies = append(h.modReplies, ModReply{Input: input, Result: res, Output: out})
+				return res, out
 			},
 		}))
 	}
